@@ -14,7 +14,8 @@ EXTENDS Integers, Sequences, FiniteSets, TLC
 CONSTANTS Msgs,       \* request ids the publisher may send, in this order 1..N
           Workers,    \* worker ids
           QLen,       \* capacity of workC (0 = unbuffered)
-          CloseEarly  \* deviation: Serve closes workC without waiting for the barrier
+          CloseEarly, \* deviation: Serve closes workC without waiting for the barrier
+          StopHandoff \* "blocking" (Stop waits until Serve receives on quit) | "nonblocking" (deviation: Stop gives up when nobody is receiving yet)
 VARIABLES next,       \* next request id the publisher will send
           interest,   \* server-side subscription interest
           pending,    \* client-lib pending list of the subscription (seq of ids, 0 = barrier marker)
@@ -34,7 +35,7 @@ N == Cardinality(Msgs)
 Init == /\ next = 1 /\ interest = TRUE /\ pending = <<>> /\ cb = 0 /\ subLive = TRUE
         /\ workC = <<>> /\ workClosed = FALSE
         /\ wk = [w \in Workers |-> 0]
-        /\ serve = "running" /\ stop = "idle" /\ barrierDone = FALSE
+        /\ serve = "starting" /\ stop = "idle" /\ barrierDone = FALSE
         /\ accepted = {} /\ lateSet = {} /\ processed = [m \in Msgs |-> 0] /\ replied = {} /\ panic = FALSE
 \* publisher (its Flush is implicit: a published message reaches the server immediately)
 Publish == /\ next <= N
@@ -73,7 +74,14 @@ WReply(w) == /\ wk[w] < 0 /\ wk[w] > -1000
 WExit(w) == /\ wk[w] = 0 /\ workC = <<>> /\ workClosed
             /\ wk' = [wk EXCEPT ![w] = -1000]
             /\ UNCHANGED <<next, interest, pending, cb, subLive, workC, workClosed, serve, stop, barrierDone, accepted, lateSet, processed, replied, panic>>
-\* Stop: f.quit <- done (rendezvous with Serve) ; <-done
+\* Serve has subscribed, started its workers and parks on <-f.quit
+ServeReady == /\ serve = "starting" /\ serve' = "running"
+              /\ UNCHANGED <<next, interest, pending, cb, subLive, workC, workClosed, wk, stop, barrierDone, accepted, lateSet, processed, replied, panic>>
+\* deviation: a Stop that finds nobody receiving on quit returns at once; the stop request is lost
+StopGiveUp == /\ StopHandoff = "nonblocking" /\ stop = "idle" /\ serve = "starting"
+              /\ stop' = "returned"
+              /\ UNCHANGED <<next, interest, pending, cb, subLive, workC, workClosed, wk, serve, barrierDone, accepted, lateSet, processed, replied, panic>>
+\* Stop: f.quit <- done (rendezvous with Serve: Stop waits until Serve receives) ; <-done
 StopCall == /\ stop = "idle" /\ serve = "running"
             /\ stop' = "waitdone" /\ serve' = "drain"
             /\ UNCHANGED <<next, interest, pending, cb, subLive, workC, workClosed, wk, barrierDone, accepted, lateSet, processed, replied, panic>>
@@ -99,14 +107,14 @@ CloseQ == /\ serve = "closeq" /\ workClosed' = TRUE /\ serve' = "waitworkers"
 ServeRet == /\ serve = "waitworkers" /\ \A w \in Workers : wk[w] = -1000
             /\ serve' = "returned"
             /\ UNCHANGED <<next, interest, pending, cb, subLive, workC, workClosed, wk, stop, barrierDone, accepted, lateSet, processed, replied, panic>>
-Sys == \/ CbTake \/ CbPush \/ StopCall \/ Drain \/ SubGone \/ Flush \/ Barrier \/ DoneSend \/ CloseQ \/ ServeRet
+Sys == \/ ServeReady \/ StopGiveUp \/ CbTake \/ CbPush \/ StopCall \/ Drain \/ SubGone \/ Flush \/ Barrier \/ DoneSend \/ CloseQ \/ ServeRet
        \/ \E w \in Workers : Handoff(w) \/ WTake(w) \/ WProcess(w) \/ WReply(w) \/ WExit(w)
 Next == Publish \/ Sys
-Spec == Init /\ [][Next]_vars /\ WF_vars(CbTake \/ CbPush \/ Drain \/ SubGone \/ Flush \/ Barrier \/ DoneSend \/ CloseQ \/ ServeRet \/ (\E w \in Workers : Handoff(w) \/ WTake(w) \/ WProcess(w) \/ WReply(w) \/ WExit(w))) 
+Spec == Init /\ [][Next]_vars /\ WF_vars(ServeReady \/ CbTake \/ CbPush \/ Drain \/ SubGone \/ Flush \/ Barrier \/ DoneSend \/ CloseQ \/ ServeRet \/ (\E w \in Workers : Handoff(w) \/ WTake(w) \/ WProcess(w) \/ WReply(w) \/ WExit(w))) 
 \* ----- properties (C20) -----
 AtMostOnce == \A m \in Msgs : processed[m] <= 1
 Drained == serve = "returned" => \A m \in accepted : processed[m] = 1 /\ m \in replied
 NoLate == \A m \in lateSet : processed[m] = 0
 NoPanic == ~panic
-Termination == (stop = "waitdone") ~> (stop = "returned" /\ serve = "returned")
+Termination == (stop \in {"waitdone", "returned"}) ~> (stop = "returned" /\ serve = "returned")
 =============================================================================
